@@ -8,6 +8,7 @@ import (
 	"time"
 
 	"github.com/gopcua/opcua/ua"
+	"github.com/gopcua/opcua/uasc"
 
 	"verifharness/chanpair"
 	"verifharness/vfgo"
@@ -16,9 +17,21 @@ import (
 // runLifetime: open a channel with the given token lifetime and report the renewal and
 // expiration delays the client computed for the first token (hooks renew.sched/expire.sched).
 func runLifetime(cs Case) (status, detail, class string, obs any) {
-	p, c, err := openPair(cs, chanpair.Opts{Lifetime: uint32(cs.LifetimeMs), RequestTimeout: 20 * time.Second})
+	p, c, err := openPair(cs, chanpair.Opts{Lifetime: uint32(cs.LifetimeMs), RequestTimeout: 20 * time.Second, NoOpen: cs.SkewMs != 0})
 	if err != nil {
 		return "inconclusive", "open: " + err.Error(), "", nil
+	}
+	if cs.SkewMs != 0 {
+		// the token's CreatedAt is the server's time: the client's schedule must not depend on the two clocks agreeing
+		skew := time.Duration(cs.SkewMs) * time.Millisecond
+		uasc.VerifSetTime(p.Server, func() time.Time { return time.Now().Add(skew) })
+		octx, ocancel := context.WithTimeout(context.Background(), 15*time.Second)
+		err := p.Client.Open(octx)
+		ocancel()
+		if err != nil {
+			closePair(p, c)
+			return "inconclusive", "open: " + err.Error(), "", nil
+		}
 	}
 	// the timers run in goroutines started by the OPN response handler
 	var renew, expire map[string]any
@@ -39,11 +52,11 @@ func runLifetime(cs Case) (status, detail, class string, obs any) {
 	if renew == nil {
 		return "inconclusive", "no renew.sched event", "", nil
 	}
-	o := map[string]any{"lifetime_ms": cs.LifetimeMs, "renew_when_ns": renew["when"], "revised_lifetime_ns": renew["lifetime"]}
+	o := map[string]any{"lifetime_ms": cs.LifetimeMs, "skew_ms": cs.SkewMs, "renew_when_ns": renew["when"], "revised_lifetime_ns": renew["lifetime"]}
 	if expire != nil {
 		o["expire_when_ns"] = expire["when"]
 	}
-	return "ok", "", fmt.Sprintf("lifetime/%d", cs.LifetimeMs), o
+	return "ok", "", fmt.Sprintf("lifetime/%d/skew=%d", cs.LifetimeMs, cs.SkewMs), o
 }
 
 // runRenewRun: real renewals driven by the library's own timer with a short lifetime, while
